@@ -177,7 +177,7 @@ def check_c39(ctx):
     ctx.cov["constants"]["MC_Frame"] = fc
     ctx.tlc_must_pass(SPEC, "Frame", "MC_Frame.cfg", defines=fc, timeout=1500)
     rnd = random.Random(ctx.seed * 104729 + 39)
-    warm = {"MAXWARM": 0 if q else 1, "WARMK": _set(["syn"]), "WARMN": _set(["lc", "naK"]),
+    warm = {"MAXWARM": 0 if q else 1, "WARMK": _set(["syn"]), "WARMN": _set(["naK"]),
             "WARMV": _set(["v", "long"])}
     g1 = dict(fc, **warm)
     ctx.cov["constants"]["Gen_Frame_exhaustive"] = g1
@@ -188,8 +188,18 @@ def check_c39(ctx):
     if not q:
         # the same cases with seeded alternative representatives of every class
         for c in list(cases):
-            if rnd.random() < 0.5:
+            if rnd.random() < 0.2:
                 cases.append({"seq": c["seq"], "var": rnd.randint(1, 1 << 30)})
+    # sequences: every prefix of <= 1 (quick) / <= 2 (thorough) frames out of {one written SYN_REPLY,
+    # the 8 frame structs the writer must refuse} before every final shape of a reduced class set:
+    # a refused write must leave no trace on the frames that follow
+    g1r = dict(SIM_CONSTS, MAXWARM=1 if q else 2, WARMK=_set(["reply"]), WARMN=_set(["naK"]), WARMV=_set(["v"]))
+    ctx.cov["constants"]["Gen_Frame_exhaustive_refused_prefixes"] = g1r
+    seqs = gen_frames(ctx, g1r, timeout=2400)
+    for c in seqs:
+        c["var"] = 0
+    cases += seqs
+    nmc = len(cases) if q else nmc + len(seqs)
     g2 = dict(SIM_CONSTS, MAXWARM=5)
     ctx.cov["constants"]["Gen_Frame_simulate"] = g2
     sim = gen_frames(ctx, g2, mode="sim", num=150 if q else 2000, depth=9, timeout=2400)
@@ -197,7 +207,8 @@ def check_c39(ctx):
         c["var"] = rnd.randint(1, 1 << 30)
     cases += sim
     ctx.cov["rule"] = ("cases = every shape of the abstract frame space (%d exhaustive cases: prefix of written header "
-                       "frames x final shape) plus TLC-simulated longer prefixes (%d) on one zlib context; each is "
+                       "frames -- incl. frames the writer must refuse, which must leave no trace -- x final shape) plus "
+                       "TLC-simulated longer prefixes (%d) on one zlib context; each is "
                        "replayed on a pair of real bfe_spdy.Framer objects; per item: frame-or-error against the "
                        "Layer-P verdict, field-by-field comparison, sentinel PING (frame boundary), allocation <= "
                        "64 x frame + 1 MiB, recover, watchdog. distinct = distinct (shape sequence, representative "
